@@ -552,6 +552,8 @@ impl NamedFile {
                 if let Some(range) = HttpRange::parse(ranges_header, length)
                     .ok()
                     .and_then(|ranges| ranges.first().copied())
+                    // a range that selects no bytes (suffix range on an empty file) is unsatisfiable
+                    .filter(|range| range.length > 0)
                 {
                     ranged_req = true;
                     length = range.length;
